@@ -136,16 +136,17 @@ func (d c17) Generate(r *core.Rand, tier string, idx uint64) *core.Case {
 }
 
 type c17op struct {
-	op        *world.Op
-	proc      *sched.Proc
-	h         *sched.Handle
-	run       func() error
-	key       string // content key of the entry it appends ("" for readers)
-	call      int
-	ret       int
-	readOut   string
-	numRead   string // tip seen by the latest read of the RSL ref (the numbering read)
-	staleRead bool   // the tip had moved between that read and the commit's own read
+	op          *world.Op
+	proc        *sched.Proc
+	h           *sched.Handle
+	run         func() error
+	key         string // content key of the entry it appends ("" for readers)
+	call        int
+	ret         int
+	readOut     string
+	numRead     string // tip seen by the latest read of the RSL ref (the numbering read)
+	staleRead   bool   // the tip had moved between that read and the commit's own read
+	commitReads int    // commit attempts since the last numbering read
 }
 
 type logModelState struct {
@@ -280,10 +281,15 @@ func (d c17) Execute(c *core.Case) *core.Result {
 			switch ev.Desc.Kind {
 			case "GetReference":
 				t.numRead = tip // the last GetReference of the RSL before the commit is the numbering read
+				t.commitReads = 0
 			case "Commit.read":
-				if t.numRead != tip {
+				// only the first commit attempt after a numbering read is the window of
+				// C17-K1: a second attempt without renumbering (a retry after a refused
+				// compare-and-set) that succeeds is a different defect and is not attributed
+				if t.commitReads == 0 && t.numRead != tip {
 					t.staleRead = true
 				}
+				t.commitReads++
 			}
 		}
 		switch ev.Desc.Kind {
